@@ -19,7 +19,7 @@ CREDS = [{}, {'roles': []}, {'roles': list(gen.ROLES)},
          {'roles': list(gen.ROLES) + ['admin'], 'is_admin': True, 'user_id': 'u', 'project_id': 'p', 'k3': 'tv'}]
 TARGETS = [{}, {'k0': 'v0', 'k1': 'v1', 'k2': 'True', 'k3': 'tv', 'user_id': 'u', 'project_id': 'p'}]
 
-ONE_TOKEN = ['not', 'NOT', 'and', 'And', 'or', 'OR', '(', ')', '((', '))', '()', '"foo"', "'foo'", '""', "''",
+ONE_TOKEN = ["not ''", 'not ""', "'' or role:r0", 'role:r0 and not ""', "not ('' and @)", 'not ("")', "@ or ''", 'not', 'NOT', 'and', 'And', 'or', 'OR', '(', ')', '((', '))', '()', '"foo"', "'foo'", '""', "''",
              '"role:r0"', "'role:r0'", 'foo', 'role', 'r0', 'True', 'admin_required', '%(k0)s', '@@', '!!', '@!',
              '"', "'", '(role:r0', 'role:r0)', ')role:r0(', 'not)', '(not', '(and)', '("role:r0")', "('a':'b')"]
 
@@ -78,7 +78,7 @@ def run(ctx, rep):
     pool = common.leaf_pool()
     n_cor = ctx.n(1500, 60000)
     extra_tok = [('(',), (')',), ('and',), ('or',), ('not',), ('check', '"q"'), ('check', "'q'"), ('check', 'foo'),
-                 ('check', 'role:r5')]
+                 ('check', 'role:r5'), ('check', '""'), ('check', "''"), ('check', '"role:r0"'), ('check', "'@'")]
     for _ in range(n_cor):
         e = gen.gen_e0(ctx.rng, ctx.rng.choice([1, 2, 3]), lambda r: r.choice(pool))
         toks = gen.render(e)
